@@ -41,6 +41,8 @@ type Node struct {
 	// Index: explicit indices of Elems (array / slice literal written with "index: value"
 	// elements); nil when every element is positional
 	Index []int64
+	// MapKeys: keys of a map literal (parallel to Elems)
+	MapKeys []*Node
 	Str   string
 	Int    int64
 	Bool   bool
@@ -343,6 +345,8 @@ func typeString(e ast.Expr) string {
 			return "[" + l.Value + "]" + typeString(t.Elt)
 		}
 		return "[?]" + typeString(t.Elt)
+	case *ast.MapType:
+		return "map[" + typeString(t.Key) + "]" + typeString(t.Value)
 	case *ast.InterfaceType:
 		return "any"
 	}
@@ -391,6 +395,25 @@ func conv(e ast.Expr) (*Node, error) {
 	case *ast.CompositeLit:
 		n := &Node{Kind: NComposite, Type: typeString(x.Type)}
 		_, isArray := x.Type.(*ast.ArrayType)
+		if _, isMap := x.Type.(*ast.MapType); isMap {
+			for _, el := range x.Elts {
+				kv, ok := el.(*ast.KeyValueExpr)
+				if !ok {
+					return nil, fmt.Errorf("golit: map literal element without key")
+				}
+				k, err := conv(kv.Key)
+				if err != nil {
+					return nil, err
+				}
+				v, err := conv(kv.Value)
+				if err != nil {
+					return nil, err
+				}
+				n.MapKeys = append(n.MapKeys, k)
+				n.Elems = append(n.Elems, v)
+			}
+			return n, nil
+		}
 		next := int64(0)
 		indexed := false
 		var index []int64
